@@ -85,16 +85,21 @@ CLAIMS = {
         note='As C02 and C03 (line-level semantics; memory map by certificate and correspondence).'),
     'C06': dict(
         technique='Coq proofs: memory-level invariance of the observed slots under c_reuse and strip_forks for all netlists (every option combination delivers the unstripped line-level value), launcher covers every instance once (model tied to the real MockCuda), lane independence, release-order irrelevance, multi-cycle strip invariance; differential execution over all option pairs',
-        text='Proof (logic level full; timing level partial). PROVED for every well-formed, combinationally acyclic netlist of known primitives, every stimulus, any value domain: '
+        text='Proof (option clauses full at logic and timing level; code-path clause by differential execution). PROVED for every well-formed, combinationally acyclic netlist of known primitives, every stimulus, any value domain: '
              'whatever c_reuse and strip_forks are, the flat memory after the scheduled ops holds at the PPO slot of every observed port / state element the value that the '
              'UNSTRIPPED line-level execution gives the line feeding it (C06_options_irrelevant_spec), so any two option combinations agree at every observed slot '
              '(C06_options_irrelevant, C06_c_reuse_irrelevant, C06_end_to_end_reuse; ops, levels, aliases and interface do not depend on c_reuse: C06_c_reuse_same_interface); '
              'the stripped schedule equals the unstripped one at every line (C06_strip_forks_irrelevant) also over k clock cycles (C06_cycles_strip_irrelevant); the '
              'mock-GPU launch runs every in-bounds kernel instance exactly once (C06_gpu_threads_cover; Model/Launch.v is compared with the real launcher\'s thread sequence '
              'and cdiv on generated grid/block shapes); lane independence of the bit-parallel kernels for any batch size; irrelevance of the order in which released memory is freed. '
-             'NOT theorems (decided by running the implementation against itself on every generated configuration): strip_forks for TIMING simulation (false in general: '
-             'known finding D26), CPU vs GPU kernels (WaveSim vs WaveSimCuda incl. 33..65 lanes over two cycles with s_ppo_to_ppi), more lanes, lane permutations, '
-             'c_prop(sims=j), delay-dataset modes 0/1.',
+             'TIMING level: a zero-delay buffer is the identity on strictly increasing waveforms that fit the capacity (C06_buf_zero_delay_identity; overflow case characterised; '
+             'refuted for a non-monotone waveform: D26 at gate level), hence for every well-formed acyclic netlist with zero delay on fork inputs the stripped schedule (operands read through the stem alias '
+             'with the delay row of the original operand line, Model/WaveStripModel.v) equals the unstripped one at every line whenever the stem waveforms are strictly increasing and fit '
+             '(C06_wave_strip_forks_irrelevant), in particular for polarity-free delays and non-shrinking capacities with no further hypothesis (C06_wave_strip_forks_polfree); the general statement is '
+             'REFUTED by a machine-checked witness with a polarity-dependent delay (C06_wave_strip_nonmonotone_refuted = known finding D26). Delay-dataset selection per lane or globally (modes 0/1) equals '
+             'simulating with the selected dataset alone for any op list (C06_dataset_selection[_lanes]). The alias semantics and the selection function are compared with the real waveform memory '
+             'of WaveSim(strip_forks=True) / multi-dataset runs on generated cases. NOT theorems (decided by running the implementation against itself on every generated configuration): '
+             'CPU vs GPU kernels (WaveSim vs WaveSimCuda incl. 33..65 lanes over two cycles with s_ppo_to_ppi), more lanes, lane permutations, c_prop(sims=j).',
         design_ref='5/C06',
         note='Modelled not verified: SimOps.__init__ (correspondence for every option setting). Dataset mode 2 (random picking) and sd>0 capture are outside the claim; the GPU kernels are compared with the CPU loops differentially, their bodies are not modelled separately.'),
     'C07': dict(
